@@ -362,6 +362,61 @@ func (c *constStream) Read(p []byte) (int, error) {
 	return len(p), nil
 }
 
+// ---------------------------------------------------------------------------
+// Argument immutability (T12): the library never writes to an *Options, a *VerifyOptions or an exported preset.
+
+var presetPtrs = [4]*ed.VerifyOptions{ed.VerifyOptionsDefault, ed.VerifyOptionsStdLib, ed.VerifyOptionsFIPS_186_5, ed.VerifyOptionsZIP_215}
+var presetNames = [4]string{"VerifyOptionsDefault", "VerifyOptionsStdLib", "VerifyOptionsFIPS_186_5", "VerifyOptionsZIP_215"}
+var presetSpec = [4]refed.Flags{refed.PresetDefault, refed.PresetStdLib, refed.PresetFIPS, refed.PresetZIP215}
+
+func voOf(fl refed.Flags) ed.VerifyOptions {
+	return ed.VerifyOptions{AllowSmallOrderA: fl.AllowSmallOrderA, AllowSmallOrderR: fl.AllowSmallOrderR, AllowNonCanonicalA: fl.AllowNonCanonicalA,
+		AllowNonCanonicalR: fl.AllowNonCanonicalR, CofactorlessVerify: fl.Cofactorless}
+}
+
+// presetsIntact compares the exported presets (pointer and contents) with the specification flag sets; a changed preset
+// is reported and put back, so that one write does not turn every later case into a failure.
+func presetsIntact(w *mc.W, after string) {
+	cur := [4]*ed.VerifyOptions{ed.VerifyOptionsDefault, ed.VerifyOptionsStdLib, ed.VerifyOptionsFIPS_186_5, ed.VerifyOptionsZIP_215}
+	for i := range cur {
+		if cur[i] != presetPtrs[i] {
+			w.Fail("VerifyOptions-preset/mutated", fmt.Sprintf("exported variable %s points to another object after %s", presetNames[i], after), nil)
+			continue
+		}
+		if want := voOf(presetSpec[i]); *cur[i] != want {
+			w.Fail("VerifyOptions-preset/mutated", fmt.Sprintf("exported preset %s is %+v after %s, it was %+v", presetNames[i], *cur[i], after, want), map[string]string{"preset": presetNames[i], "after": after})
+			*cur[i] = want
+		}
+	}
+}
+
+type optGuard struct {
+	o  *ed.Options
+	so ed.Options
+	sv ed.VerifyOptions
+}
+
+func guardOpts(o *ed.Options) optGuard {
+	g := optGuard{o: o, so: *o}
+	if o.Verify != nil {
+		g.sv = *o.Verify
+	}
+	return g
+}
+
+// check reports any write to the caller's Options / VerifyOptions (and to the presets) and undoes it.
+func (g optGuard) check(w *mc.W, after string) {
+	if *g.o != g.so {
+		w.Fail("Options/mutated", fmt.Sprintf("%s wrote to the caller's Options: before %+v, after %+v", after, g.so, *g.o), map[string]string{"after": after})
+		*g.o = g.so
+	}
+	if g.so.Verify != nil && *g.so.Verify != g.sv {
+		w.Fail("VerifyOptions/mutated", fmt.Sprintf("%s wrote to the caller's VerifyOptions: before %+v, after %+v", after, g.sv, *g.so.Verify), map[string]string{"after": after})
+		*g.so.Verify = g.sv
+	}
+	presetsIntact(w, after)
+}
+
 // call runs f and reports (result, panicked).
 func call(f func() bool) (ok bool, panicked bool) {
 	defer func() {
@@ -425,10 +480,13 @@ func (k *checker) evalCaseOpts(w *mc.W, kind string, pk, m, sig []byte, va *vari
 	for _, o := range opts {
 		exp, why := f.Verdict(o.fl)
 		lo := &ed.Options{Hash: va.hash, Context: string(va.v.Context), Verify: o.vo}
+		og := guardOpts(lo)
 		got, pan := call(func() bool { return ed.VerifyWithOptions(pk, m, sig, lo) })
+		og.check(w, "VerifyWithOptions")
 		gotE, panE := false, false
 		if epk != nil {
 			gotE, panE = call(func() bool { return ed.VerifyExpandedWithOptions(epk, m, sig, lo) })
+			og.check(w, "VerifyExpandedWithOptions")
 		}
 		if !o.fl.Admissible() {
 			// AllowNonCanonicalR + CofactorlessVerify is documented as incompatible: it must never yield an acceptance.
@@ -451,18 +509,68 @@ func (k *checker) evalCaseOpts(w *mc.W, kind string, pk, m, sig []byte, va *vari
 			d, cas := k.describe(pk, m, sig, va, o.fl)
 			w.Fail("NewExpandedPublicKey/refuses-acceptable-key", "NewExpandedPublicKey returned an error for a key under which the predicate accepts: "+d, cas)
 		}
-		// extra entry points for the default options
+		// Documented defaults (T12): Options.Verify == nil must behave exactly like VerifyOptionsDefault in EVERY twin of the
+		// entry point - plain, expanded, batch (plain and expanded entries), and the option-less wrappers - in pure, ctx
+		// and ph mode.  (The explicit-default answers are got / gotE above.)
 		if o.fl == refed.PresetDefault {
-			g, p := call(func() bool {
-				return ed.VerifyWithOptions(pk, m, sig, &ed.Options{Hash: va.hash, Context: string(va.v.Context)})
-			})
+			nilOpts := func() *ed.Options { return &ed.Options{Hash: va.hash, Context: string(va.v.Context)} }
+			no := nilOpts()
+			ng := guardOpts(no)
+			g, p := call(func() bool { return ed.VerifyWithOptions(pk, m, sig, no) })
+			ng.check(w, "VerifyWithOptions(Verify=nil)")
 			k.cmp(w, "VerifyWithOptions(Verify=nil)", g, p, exp, why, pk, m, sig, va, o.fl)
+			if epk != nil {
+				g, p = call(func() bool { return ed.VerifyExpandedWithOptions(epk, m, sig, no) })
+				ng.check(w, "VerifyExpandedWithOptions(Verify=nil)")
+				k.cmp(w, "VerifyExpandedWithOptions(Verify=nil)", g, p, exp, why, pk, m, sig, va, o.fl)
+			}
 			if va.v.Pure() {
 				g, p = call(func() bool { return ed.Verify(pk, m, sig) })
 				k.cmp(w, "Verify", g, p, exp, why, pk, m, sig, va, o.fl)
 				if epk != nil {
 					g, p = call(func() bool { return ed.VerifyExpanded(epk, m, sig) })
 					k.cmp(w, "VerifyExpanded", g, p, exp, why, pk, m, sig, va, o.fl)
+				}
+			}
+			// batch twins: always where the default matters (Default and the all-false struct disagree), otherwise for a
+			// deterministic eighth of the cases
+			if len(sig) == 64 && (verdict[refed.PresetDefault.Mask()] != verdict[0] || (sig[1]^sig[33])&7 == 0) {
+				bv := ed.NewBatchVerifier()
+				n := 0
+				add := func(entry string, f func(o *ed.Options), o *ed.Options) {
+					bg := guardOpts(o)
+					_, pan := call(func() bool { f(o); return true })
+					bg.check(w, entry)
+					if pan {
+						d, cas := k.describe(pk, m, sig, va, refed.PresetDefault)
+						w.Fail(entry+"/panic", "undocumented panic: "+d, cas)
+					}
+					n++
+				}
+				add("BatchVerifier.AddWithOptions(Verify=nil)", func(o *ed.Options) { bv.AddWithOptions(pk, m, sig, o) }, nilOpts())
+				add("BatchVerifier.AddWithOptions", func(o *ed.Options) { bv.AddWithOptions(pk, m, sig, o) }, lo)
+				if epk != nil {
+					add("BatchVerifier.AddExpandedWithOptions(Verify=nil)", func(o *ed.Options) { bv.AddExpandedWithOptions(epk, m, sig, o) }, nilOpts())
+					add("BatchVerifier.AddExpandedWithOptions", func(o *ed.Options) { bv.AddExpandedWithOptions(epk, m, sig, o) }, lo)
+				}
+				if va.v.Pure() {
+					add("BatchVerifier.Add", func(*ed.Options) { bv.Add(pk, m, sig) }, nilOpts())
+					if epk != nil {
+						add("BatchVerifier.AddExpanded", func(*ed.Options) { bv.AddExpanded(epk, m, sig) }, nilOpts())
+					}
+				}
+				var all bool
+				var each []bool
+				_, pan := call(func() bool { all, each = bv.Verify(&constStream{b: sig[2]}); return true })
+				presetsIntact(w, "BatchVerifier.Verify")
+				w.EvalN("default-twins/batch/"+whyName(why), int64(n), nontrivial)
+				bad := pan || all != exp || len(each) != n
+				for _, e := range each {
+					bad = bad || e != exp
+				}
+				if bad {
+					d, cas := k.describe(pk, m, sig, va, o.fl)
+					w.Fail("BatchVerifier.Verify/default-twins", fmt.Sprintf("batch [Verify=nil, VerifyOptionsDefault] x [plain, expanded] (+Add/AddExpanded for pure) gives all=%v each=%v panic=%v, predicate says %v (%s): %s", all, each, pan, exp, why, d), cas)
 				}
 			}
 		}
